@@ -2822,6 +2822,17 @@ def breakout_common_code_in_ifs(source: str) -> str:
                 yield r, None, transaction
 
 
+def _same_string_when_raw(code: str, value: str) -> bool:
+    """Whether the string literal is the same string with an r in front of it.
+
+    It is not if it contains a valid escape sequence, such as \\x41, \\101, \\0 or an escaped line end.
+    """
+    try:
+        return ast.literal_eval("r" + code) == value
+    except (SyntaxError, ValueError):
+        return False
+
+
 @processing.fix
 def invalid_escape_sequence(source: str) -> str:
     """Prepend 'r' to invalid escape sequences
@@ -2862,6 +2873,7 @@ def invalid_escape_sequence(source: str) -> str:
             and code[0] in "'\""
             and "\\" in code
             and not any(sequence in code for sequence in valid_escape_sequences)
+            and _same_string_when_raw(code, node.value)
         ):
             yield node, "r" + code
 
